@@ -71,6 +71,58 @@ CHECKS = {
         'note': _NOTE,
         'technique': 'property-based testing: ground-truth link sets + brute-force existence search',
     },
+    'C03': {
+        'text': 'NliSolver.compute_nli (gn_model_analytic) on generated fibres x combs against a scalar-loop re-implementation of '
+                'eq. 120/123 of arXiv:1209.0394 (rtol 1e-9), plus metamorphic laws: non-negativity, cubic power scaling, '
+                'monotonicity under added channel / raised power, permutation invariance, end-to-end through Fiber.__call__.',
+        'note': _NOTE + ' Fibre accessor values alpha(f), beta2(f), gamma(f) are inputs of the reference formula.',
+        'technique': 'property-based testing: closed-form reference model + metamorphic relations',
+    },
+    'C05': {
+        'text': 'Generated chains of fibres (scalar/per-frequency loss, lumped losses, connectors) with ROADM/amplifier PMD/PDL '
+                'contributions: per-channel loss budget, additive CD/latency, quadrature PMD/PDL, span-order invariance; Raman '
+                'solver: low-power limit, perturbative vs numerical agreement within the derived Euler bound, lumped loss applied '
+                'once, counter-propagating pumps only add gain.',
+        'note': _NOTE,
+        'technique': 'property-based testing: reference arithmetic + metamorphic (permutation, inserted lumped loss) + differential (two solver methods)',
+    },
+    'C13': {
+        'text': 'One generated request (fixed mode / automatic mode, optional bidirectional) on a generated designed network '
+                'through planning(): receiver GSNR re-derived from the raw line figure + tx OSNR + each add/drop OSNR once, '
+                'penalties re-interpolated, verdict recomputed around thresholds placed near the achievable metric; automatic '
+                'mode compared with independent fixed-mode plannings of every candidate mode (history clause).',
+        'note': _NOTE,
+        'technique': 'property-based testing: reference receiver arithmetic + differential (auto mode vs fixed-mode runs)',
+    },
+    'C14': {
+        'text': 'Generated histories of pth_assign_spectrum calls (single and batched requests with any fixed/free N/M mix, '
+                'pre-occupation, edge windows) on generated designed networks with differing usable bands, mirrored by an '
+                'explicit per-OMS occupancy set model checked after every step.',
+        'note': _NOTE,
+        'technique': 'property-based testing: model-based histories (set-of-slots reference model, invariant after each step)',
+    },
+    'C15': {
+        'text': 'build_oms_list on generated networks whose OMS differ in amplifier bands (C, reduced C, L, C+L multiband) and on '
+                'the shipped multiband example: partition/pairing vs ground truth, common extent, usable slots vs own band '
+                'arithmetic; align_grids / insert_left / insert_right on generated bitmap sets; slot arithmetic round trips.',
+        'note': _NOTE,
+        'technique': 'property-based testing: ground-truth partition + reference band arithmetic + invariants of grid alignment',
+    },
+    'C16': {
+        'text': 'Differential over histories: each generated request planned alone on a pristine copy vs inside 2-4 generated '
+                'orderings / sub-batches that reuse one network object; routes, modes, receiver figures, verdicts compared '
+                '(1e-9), network state digest and export compared before/after.',
+        'note': _NOTE,
+        'technique': 'property-based testing: differential (alone vs in batch) over generated orderings + state-digest invariant',
+    },
+    'C20': {
+        'text': 'Generated workbook models rendered to real .xlsx files and to an xlrd-compatible in-memory stub (.xls branch), '
+                'valid and with exactly one rule violation, plus the shipped workbooks; converted JSON checked against an '
+                'oracle derived from the model only (elements, per-direction fibre parameters, east/west amplifier settings, '
+                'wiring), then loaded and designed; service rows checked against the model.',
+        'note': _NOTE + ' The .xls binary reader itself is exercised on the shipped fixtures only (no xlwt available).',
+        'technique': 'property-based testing: model-derived expected output + differential (.xlsx vs .xls branch) + fault injection of sheet rules',
+    },
 }
 
 _PENDING = 'check not built yet in this session (work in progress, see DESIGN.md §3)'
